@@ -88,7 +88,7 @@ StructTests == Sel({<<UT("const", 0, "st1"), UT("const", 0, "st2")>>}, {<<UT("co
                    {<<>>, <<UT("const", 0, "st1"), UT("const", 0, "st2")>>, <<UT("const", 1, "st1")>>})
 
 MkCase(mode, f1, f2, i1, i2, sts) ==
-  [id |-> "mc", mode |-> mode, fe |-> "map",
+  [id |-> "mc", mode |-> mode, fe |-> "map", pre |-> 0,
    schema |-> Struct(<<Kid("a", NoTags, f1), Kid("b", NoTags, f2)>>, sts, <<"ok">>),
    input |-> Map(<<Ent("a", i1), Ent("b", i2)>>)]
 
